@@ -80,3 +80,38 @@ def oracle_lines(ctx, lines, prop, how):
         if l.startswith("# ORACLE " + prop + " "):
             f = l.split(" ", 4)
             ctx.add_violation("crash:" + f[3] if how.startswith("crash") else f[3], (f[4] if len(f) > 4 else "")[:600], {"how": how, "oracle": l[:3000]})
+
+
+def run_blockmap(ctx, ok_drv, args):
+    """Block-map correspondence (model M7): the pointer structure of a real file before/after each operation."""
+    tr = os.path.join(ctx.scratch, "blockmap.txt")
+    rc, err = ctx.harness(["blockmap", "-seed", str(ctx.seed)] + args, tr, timeout=3000)
+    if rc != 0:
+        ctx.breaks.append(Break("correspondence", "harness blockmap failed to run", err[-2000:]))
+        return
+    lines = open(tr).read().splitlines()
+    ops = [l for l in lines if l.startswith("bm op ")]
+    hist = ctx.cov.setdefault("histogram", {})
+    for l in ops:
+        f = l.split()
+        k = "blockmap:" + f[2]
+        if f[2] == "write":
+            k += ":short" if f[5] == "0" and int(f[6]) < int(f[4]) else (":nospc" if f[5] != "0" else ":ok")
+        hist[k] = hist.get(k, 0) + 1
+    ctx.cov["blockmap_operations"] = len(ops)
+    if not ok_drv:
+        return
+    try:
+        n, mism, _ = ctx.driver("blockmap", tr)
+    except Break as b:
+        ctx.breaks.append(b)
+        return
+    ctx.cov["traces_validated_against_impl"] += n
+    ctx.cov["evaluations"] += len(ops)
+    if mism:
+        ctx.breaks.append(Break("correspondence", "block-map model and implementation disagree on %d operations" % len(mism), "\n".join(mism[:6])))
+        m = mism[0].split(" :: ")
+        idx = int(m[0].split()[1])
+        ctx.add_violation("blockmap:" + m[0].split()[2].rstrip(":"), m[0][:400],
+                          {"how": "harness blockmap -seed %d %s; drv blockmap" % (ctx.seed, " ".join(args)), "message": m[0][:1500],
+                           "context": [x[:600] for x in lines[max(0, idx - 4):idx + 1]]})
